@@ -536,10 +536,21 @@ def srvconn_history(exe, rng, idx):
             h.send("srvstate %s %d %d" % (rng.choice(names), rng.choice([2, 2, 3, 4]), rng.choice([0, 1, 5, 16])))
         elif r < 0.7:
             h.send("pop %d" % k)
+        elif r < 0.78 and h.outstanding:
+            # the server owes answers and stays silent: the reader's timeout handler re-establishes the connection (status-server modes
+            # other than off), after which the writer has to transmit again what is outstanding there
+            sv = h.outstanding[-1][0]
+            h.send("writer " + sv)
+            h.send("srvstate %s 2 %d" % (sv, rng.choice([1, 3, 16])))
+            out = h.send("srvconn %s t" % sv)
+            if " reconnected" in out:
+                h.tag("reconnected-after-silence")
+            h.send("writer " + sv)
         else:
             sv = rng.choice(names)
             mine = [e for e in h.outstanding if e[0] == sv]
             pkts, evs = [], []
+            whole = True
             for _ in range(rng.randrange(0, 4)):
                 v = rng.random()
                 if mine and v < 0.55:
@@ -569,10 +580,13 @@ def srvconn_history(exe, rng, idx):
                         p = h.make_reply(ent, secret=h.cl[ent[3]]["secret"])       # signed with the client's secret
                     else:
                         p = mutate(rng, p)
+                        whole = False
                     h.tag("bad-reply")
                 else:
                     p = rng.choice([R.rand_bytes(rng, rng.choice([20, 21, 40])), bytes([2, rng.randrange(256), 0, rng.choice([0, 5, 19])]) + bytes(16),
                                     R.build(2, rng.randrange(256), b"", [(18, b"x")], h.srv(sv)["secret"], rqauth=bytes(16))])
+                    if len(p) < 20 or int.from_bytes(p[2:4], "big") != len(p):
+                        whole = False
                     h.tag("unsolicited")
                 pkts.append(p)
             stream = b"".join(pkts)
@@ -580,7 +594,18 @@ def srvconn_history(exe, rng, idx):
             segs = [stream[a:b] for a, b in zip([0] + cuts, cuts + [len(stream)])] if stream else []
             evs = ["w:" + sg.hex() for sg in segs]
             for _ in range(rng.choice([0, 0, 1, 2])):
-                evs.insert(rng.randrange(len(evs) + 1), rng.choice(["t", "t", "e"]))
+                ev = rng.choice(["t", "t", "e"])
+                pos = rng.randrange(len(evs) + 1)
+                if pos < len(evs):
+                    whole = False       # (a silence or an end of stream between two writes may fall inside a message: what follows lands on a
+                                        #  new connection as the tail of one - such an episode is closed with an end of stream)
+                evs.insert(pos, ev)
+            # an episode ends where the reader can be left blocked with nothing half-read: with the peer closing, or - when everything
+            # written was whole well-formed messages - simply with the last of them (or a silence)
+            # (several writes: once a packet is refused in mid-stream, what the later writes bring lands on the new connection as the tail
+            #  of a message - such an episode is closed with an end of stream, too)
+            if not (whole and len(segs) <= 1 and rng.random() < 0.6):
+                evs.append("e")
             if rng.random() < 0.25:
                 # a server that owes answers (unanswered count > 0) stays silent on its connection: whether the silence makes the reader
                 # give the connection up depends on the status-server mode
